@@ -211,6 +211,38 @@ def canonReply : List String → List String
   | st :: text :: rest => st :: canonText text :: rest
   | o => o
 
+
+/-! ### GetSequence of a feature whose span leaves the sequence is outside the quantifier -/
+
+/-- the feature fields of a parse reply with the GetSequence status and value blanked for every feature
+whose span `[start, end)` does not lie inside the sequence ("bases start..end of the file's sequence"
+do not exist there: what GetSequence does — today a slice panic — is not constrained) -/
+def maskFeats : Nat → Nat → List String → List String
+  | 0, _, r => r
+  | n + 1, len, nm :: so :: ty :: st :: en :: sc :: sd :: ph :: na :: r =>
+    let k := 2 * natOfStr na
+    let attrs := r.take k
+    match r.drop k with
+    | gst :: gsv :: r' =>
+      let a := intOfStr st
+      let b := intOfStr en
+      let inside := decide (0 ≤ a ∧ a ≤ b ∧ b ≤ (len : Int))
+      [nm, so, ty, st, en, sc, sd, ph, na] ++ attrs ++ (if inside then [gst, gsv] else ["-", "-"]) ++ maskFeats n len r'
+    | rest => [nm, so, ty, st, en, sc, sd, ph, na] ++ attrs ++ rest
+  | _, _, r => r
+
+/-- a parse reply (`ok` name version rstart rend size desc seq nfeat features… flag) with out-of-sequence
+GetSequence results blanked; anything else unchanged -/
+def maskParse : List String → List String
+  | "ok" :: name :: ver :: rs :: re :: size :: desc :: seq :: nf :: r =>
+    ["ok", name, ver, rs, re, size, desc, seq, nf] ++ maskFeats (natOfStr nf) seq.length r
+  | o => o
+
+/-- a `gff_roundtrip` reply `ok text parse…`: the parse part masked -/
+def maskBuildReply : List String → List String
+  | st :: text :: rest => st :: text :: maskParse rest
+  | o => o
+
 def render (c : List String) : List String :=
   match c with
   | "build" :: r => "gff_roundtrip" :: r
@@ -264,14 +296,16 @@ def judgeBuild (exact : Bool) (r out : List String) : Verdict :=
       let triv := x.features.isEmpty && x.seq.length < 70
       let reCls := if x.regionEnd == (x.seq.length : Int) then "re=len" else if x.regionEnd == 0 then "re=0"
                    else if x.regionEnd % 70 == 0 then "re=70k" else "re=other"
-      let same := if exact then out == m else canonReply out == canonReply m
+      let outM := maskBuildReply out
+      let mM := maskBuildReply m
+      let same := if exact then outM == mM else canonReply outM == canonReply mM
       { corr := same, judge := if inDom then some j else outsideVerdict same out,
         cls := (if triv then "triv:" else "") ++ (if exact then "buildx/" else "build/") ++ lenClass x.seq.length ++ "/" ++ reCls
                ++ (if x.features.any (fun f => f.attrs.isEmpty) then "/noattr" else "")
                -- the known finding is tagged only when the property holds of the record WITHOUT its '#'-seqid features:
                -- a second defect on such a record is a plain FAIL
                ++ (if hashSeqid x && !j && jHash then "/kf:C14-hash-seqid" else if hashSeqid x then "/hash-seqid" else "")
-               ++ (if same && out != m then "/other-wrap" else ""),
+               ++ (if same && canonReply out != canonReply m then "/getseq-outside-drift" else if same && out != m then "/other-wrap" else ""),
         detail := if same && (j || !inDom) then "" else lineOf (m.drop 2) }
 
 def judge (c out : List String) : Verdict :=
@@ -288,12 +322,13 @@ def judge (c out : List String) : Verdict :=
         | some (y, rw) => denoted d y && rw == "rw-same"
         | none => false
       let triv := d.feats.isEmpty && d.seq.length < 70
-      { corr := out == m, judge := if inDom then some j else outsideVerdict (out == m) out,
+      let same := (out.take 1 ++ maskParse (out.drop 1)) == (m.take 1 ++ maskParse (m.drop 1))
+      { corr := same, judge := if inDom then some j else outsideVerdict same out,
         cls := (if triv then "triv:" else "") ++ "layout/" ++ lenClass d.seq.length
                ++ (if ℓ.trailingSemi then "/semi" else "") ++ (if ℓ.crlf then "/crlf" else "")
                ++ (if !ℓ.preRegion.isEmpty then "/pre" else "")
                ++ (if (ℓ.between.any (!·.isEmpty)) || !ℓ.fastaBetween.isEmpty then "/skips" else ""),
-        detail := if out == m && (j || !inDom) then "" else lineOf m }
+        detail := if same && (j || !inDom) then "" else lineOf m }
   | _ => { corr := false, judge := none, cls := "bad-case", detail := "bad case" }
 
 def driver : PropDriver := { render, judge }
